@@ -521,12 +521,27 @@ def record_elements_cli(case):
     b = _bpseq(case)
     el = {"err": "", "stems": [], "singles": [], "hairpins": [], "loops": []}
     c["db"] = {"err": "", "db": []}
-    with tempfile.NamedTemporaryFile("w", suffix=".bpseq", delete=True) as f:
-        f.write(str(b) + "\n")
+    # every third structure reaches the tool as a dot-bracket file (two or three lines) whose levels are not the ones
+    # the library would choose (each level moved up by one): the tool prints ITS notation of the structure and
+    # decomposes that
+    import zlib
+    dbn = zlib.crc32(str(case["id"]).encode()) % 3 == 1
+    text = str(b) + "\n"
+    if dbn:
+        opening, closing = "([{<ABCDEFGHIJKLMNOPQRSTUVWXY", ")]}>abcdefghijklmnopqrstuvwxy"
+        own = b.fcfs.structure
+        if all(ch == "." or (ch in opening and opening.index(ch) < 28) or (ch in closing and closing.index(ch) < 28) for ch in own):
+            up = {**{opening[k]: opening[k + 1] for k in range(28)}, **{closing[k]: closing[k + 1] for k in range(28)}}
+            text = (">verif\n" if len(own) % 2 else "") + "".join(case["seq"]) + "\n" + "".join(up.get(ch, ch) for ch in own) + "\n"
+        else:
+            dbn = False
+    c["input"] = "dbn" if dbn else "bpseq"
+    with tempfile.NamedTemporaryFile("w", suffix=".dbn" if dbn else ".bpseq", delete=True) as f:
+        f.write(text)
         f.flush()
         argv, buf = sys.argv, io.StringIO()
         try:
-            sys.argv = ["motif_extractor", "--bpseq", f.name] + list(case.get("opts", []))
+            sys.argv = ["motif_extractor", "--dbn" if dbn else "--bpseq", f.name] + list(case.get("opts", []))
             with contextlib.redirect_stdout(buf):
                 motif_extractor.main()
         except BaseException as e:
